@@ -160,6 +160,50 @@ func checkC18(p *Program, r *Report) {
 	}
 	r.Add("C18.copy", FnName(srt), "Sort returns the deep copy it sorted", srt.Pos(), okRet, "tx.Copy() is both sorted and returned")
 
+	// ---- C18.always: InPlaceSort orders both lists on every path (a path that skips a sort must know that list has
+	// fewer than two entries)
+	{
+		av := NewAvail(p)
+		lc := NewLinCtx(p, inp)
+		lc.alias = av.Run(inp)
+		nAlways := 0
+		for _, sc := range sortCallsOf(inp) {
+			if sc.call.Parent() != inp {
+				continue
+			}
+			nAlways++
+			field := lastField(sc.srcExpr)
+			okAll, how := true, "the sort call dominates every return"
+			for _, ret := range returnsOf(inp) {
+				rb := ret.Block()
+				if sc.call.Block() == rb || sc.call.Block().Dominates(rb) {
+					continue
+				}
+				// a return that skips this sort: the branch conditions on the way must bound the list by one entry
+				proved := false
+				facts := lc.FactsOf(MustCondsAtBlock(inp, rb))
+				for _, b := range inp.Blocks {
+					for _, in := range b.Instrs {
+						if ln, ok := in.(*ssa.Call); ok && isBuiltin(&ln.Call, "len") && strings.HasSuffix(exprString(ln.Call.Args[0]), "."+field) {
+							if lc.Entails(facts, lc.Lin(ln).addConst(-1)) {
+								proved = true
+							}
+						}
+					}
+				}
+				if !proved {
+					okAll = false
+					how = "the return at " + p.Pos(p.InstrPos(ret)) + " is reached without sorting " + field + " and nothing on that path says it has fewer than two entries"
+				}
+			}
+			r.Add("C18.always", FnName(inp), field+" is sorted on every path through InPlaceSort", sc.call.Pos(), okAll, how)
+		}
+		if nAlways == 0 {
+			r.Unresolved("C18.always", "sort calls in txsort.InPlaceSort")
+		}
+		r.Floor("C18.always", 2)
+	}
+
 	// ---- C18.same
 	type pair struct{ in, out string }
 	views := map[string]pair{}
